@@ -96,6 +96,22 @@ def check_C05(sc, v, tier, seed, replay):
     def key(r, e):
         return "Derive:%s:%s" % (e.get("cls", ""), r["why"].split(" differs")[0])
     _reject_to_violation(v, rejects, key)
+    # the serving network name is put together by the registration procedure itself (stgutg.RegisterUE), outside the derivation entry
+    # point: complete registrations of the real process, judged by the specification's AMF (RES* = XRES*, MACs under the keys the
+    # network derives from the configured MCC/MNC), for PLMNs whose digits punish a name built from numbers or from swapped arguments
+    import random
+    import online
+    emu = online.prepare(sc)
+    rnd = random.Random(seed * 1031 + 5)
+    plmns = [("310", "260"), ("262", "08"), ("722", "070")] if tier == "quick" else \
+            [("310", "260"), ("262", "08"), ("722", "070"), ("208", "09"), ("405", "025"), ("001", "012"), ("999", "99"), ("440", "100")]
+    jobs = []
+    for i, (mcc, mnc) in enumerate(plmns):
+        scn, text = online.make_scenario(rnd, {"reg": 1, "pdu": 0, "svc": 0, "rel": 0, "dereg": 0},
+                                         opts={"det": i, "mcc": mcc, "mnc": mnc, "use_opc": i % 2 == 0, "imsi_len": [15, 14, 13][i % 3]})
+        jobs.append(("aka%02d" % i, scn, text))
+    runs = online.run_many(sc, emu, jobs, parallel=8)
+    _online_collect(v, runs, "C05", sc)
 
 
 def _count_lemmas(sc, v):
@@ -673,6 +689,21 @@ def check_C11(sc, v, tier, seed, replay):
               "library's PlmnIDToNas; NG Setup / user-location PLMN on the wire decoded with Per; distinct = (MCC, MNC, MSIN)")
     v.assumptions = ["Identity.tla transcribes TS 24.501 9.11.3.4 (SUCI, PLMN) and TS 38.413 9.3.3.5"]
     _reject_to_violation(v, rejects, lambda r, e: "%s:%s" % (e.get("ev"), r["why"].split(": ")[-1][:60]))
+    # the identities as the procedures place them: complete runs of the real process in which several UEs register and every one of
+    # them deregisters afterwards (the identity of an earlier UE is used again after later UEs were created), judged by the
+    # specification's AMF (SUCI of UE u = configured IMSI + u, PLMN of NG Setup and of every user location)
+    import random
+    import online
+    emu = online.prepare(sc)
+    rnd = random.Random(seed * 1033 + 11)
+    shapes = [(2, 3, 14), (3, 2, 15)] if tier == "quick" else [(2, 3, 14), (3, 2, 15), (3, 3, 13), (2, 2, 12), (3, 3, 15), (2, 2, 11)]
+    jobs = []
+    for i, (nue, mnc_len, imsi_len) in enumerate(shapes):
+        scn, text = online.make_scenario(rnd, {"reg": nue, "pdu": 0, "svc": 0, "rel": 0, "dereg": nue},
+                                         opts={"det": i + seed % 3, "mnc_len": mnc_len, "imsi_len": imsi_len, "free_msin": i % 2 == 1})
+        jobs.append(("ident%02d" % i, scn, text))
+    runs = online.run_many(sc, emu, jobs, parallel=8)
+    _online_collect(v, runs, "C11", sc)
 
 
 def check_C17(sc, v, tier, seed, replay):
